@@ -310,6 +310,85 @@ func (pf *parserFacts) proveRange(v ssa.Value, at *ssa.BasicBlock, lo, hi int64,
 			}
 		}
 	}
+	// a component of an aggregate that was passed by value (held.channel where held came from a helper, arr[1] of an array
+	// parameter): prove every scalar it can have been built from
+	{
+		var agg ssa.Value
+		var aggAlloc *ssa.Alloc
+		var fld *types.Var
+		idx := int64(-1)
+		switch x := v.(type) {
+		case *ssa.Field:
+			agg, fld = x.X, x.X.Type().Underlying().(*types.Struct).Field(x.Field)
+		case *ssa.Index:
+			if k, ok := x.Index.(*ssa.Const); ok {
+				agg, idx = x.X, k.Int64()
+			}
+		case *ssa.UnOp:
+			if x.Op == token.MUL {
+				switch y := x.X.(type) {
+				case *ssa.FieldAddr:
+					if a, ok := y.X.(*ssa.Alloc); ok {
+						aggAlloc, fld = a, deref(y.X.Type()).Underlying().(*types.Struct).Field(y.Field)
+					}
+				case *ssa.IndexAddr:
+					if a, ok := y.X.(*ssa.Alloc); ok {
+						if k, ok := y.Index.(*ssa.Const); ok {
+							aggAlloc, idx = a, k.Int64()
+						}
+					}
+				}
+			}
+		}
+		var leaves []leafVal
+		okLeaves := false
+		if aggAlloc != nil {
+			leaves, okLeaves = pf.allocLeaves(aggAlloc, fld, idx, 0)
+			// only worth it when the variable is a copy of something built elsewhere or is assigned more than once: a plain
+			// composite literal with one store per field is handled by the rules below as before
+			if okLeaves && len(leaves) == 1 && leaves[0].v == v {
+				okLeaves = false
+			}
+		} else if agg != nil {
+			_, isParam := agg.(*ssa.Parameter)
+			_, isCall := agg.(*ssa.Call)
+			if isParam || isCall {
+				leaves, okLeaves = pf.componentLeaves(agg, fld, idx, 0)
+			}
+		}
+		if okLeaves {
+			{
+				if len(leaves) > 0 {
+					all := true
+					var whys []string
+					for _, l := range leaves {
+						if l.elemOf != nil {
+							rs := pf.elemInv[l.elemOf]
+							if int(l.idx) < len(rs) && rs[l.idx].lo >= lo && rs[l.idx].hi <= hi {
+								pf.used["elem:"+l.elemOf.Name()] = true
+								whys = append(whys, fmt.Sprintf("container invariant %s[..][%d] in [%d,%d]", l.elemOf.Name(), l.idx, rs[l.idx].lo, rs[l.idx].hi))
+								continue
+							}
+							all = false
+							break
+						}
+						saved := pf.extra
+						pf.extra = nil
+						ok, why := pf.proveRange(l.v, l.at, lo, hi, depth+1)
+						pf.extra = saved
+						if !ok {
+							all = false
+							break
+						}
+						whys = append(whys, why)
+					}
+					if all {
+						return true, "every value this component is built from: " + strings.Join(whys, " | ")
+					}
+				}
+			}
+		}
+	}
 	// assumed invariants
 	switch x := v.(type) {
 	case *ssa.UnOp:
@@ -511,11 +590,41 @@ func (pf *parserFacts) checkBounds(typ, field string) []boundResult {
 		}
 		ok, why := pf.proveRange(fs.Val, fs.Store.Block(), r.lo, r.hi, 0)
 		out = append(out, boundResult{
-			Key: fmt.Sprintf("config.ParseData/%s{%s}[%s]", typ, field, pf.litContext(fs.Lit)),
+			Key: fmt.Sprintf("config.ParseData/%s{%s}[%s]", typ, field, pf.storeContext(fs)),
 			Pos: pf.p.Pos(fs.Store.Pos()), Why: why, OK: ok,
 		})
 	}
 	return out
+}
+
+// storeContext names the parser case a field store belongs to: the case in which the store itself is executed when the
+// literal is one variable filled in by several cases, otherwise the case of its literal.  "-" for a store that every case
+// shares (made before the switch).
+func (pf *parserFacts) storeContext(fs fieldStore) string {
+	if fs.Store != nil && fs.Store.Block() != fs.Lit.Block() {
+		if s := pf.caseAt(fs.Store.Block()); s != "" {
+			return s
+		}
+	}
+	return pf.litContext(fs.Lit)
+}
+
+// caseAt: the string constant some guard of block at compares with ("" if none).
+func (pf *parserFacts) caseAt(at *ssa.BasicBlock) string {
+	vw := pf.view(at.Parent())
+	for _, a := range vw.GuardsAt(at) {
+		op, x, y, ok := normAtom(a)
+		if !ok || op != "==" || !a.Taken {
+			continue
+		}
+		if _, isC := x.IsConst(); isC {
+			x, y = y, x
+		}
+		if s, isS := y.IsStringConst(); isS {
+			return s
+		}
+	}
+	return ""
 }
 
 // litContext names the parser case a literal belongs to (mapping type constant), for stable keys.
@@ -545,6 +654,9 @@ func (pf *parserFacts) litContext(lit *ssa.Alloc) string {
 		}
 	}
 	// Key literals: distinguish numeric / named note
+	if n, ok := deref(lit.Type()).(*types.Named); !ok || n.Obj().Name() != "Key" {
+		return "-"
+	}
 	fields := compositeFields(lit)
 	for f, v := range fields {
 		if f.Name() == "Note" {
@@ -746,4 +858,202 @@ func (pf *parserFacts) boundsInterproc(at *ssa.BasicBlock, t *Term, init bound, 
 		}
 	}
 	return b
+}
+
+// leafVal is a scalar a struct field (array element) was built from, with the block in which that scalar is evaluated.
+type leafVal struct {
+	v  ssa.Value
+	at *ssa.BasicBlock
+	// or: element idx of an entry of the container held in Device field elemOf (checked against the container invariant)
+	elemOf *types.Var
+	idx    int64
+}
+
+// componentLeaves resolves "component sel of aggregate s" (sel: a struct field, or a constant array index) to the scalar
+// values it can hold, looking through local composite literals, value-returning helpers, parameters (every static call
+// site) and phis.  ok == false when some source is not understood.
+func (pf *parserFacts) componentLeaves(s ssa.Value, field *types.Var, index int64, depth int) ([]leafVal, bool) {
+	if depth > 8 || s == nil {
+		return nil, false
+	}
+	switch x := s.(type) {
+	case *ssa.ChangeType:
+		return pf.componentLeaves(x.X, field, index, depth+1)
+	case *ssa.Phi:
+		var out []leafVal
+		for _, e := range x.Edges {
+			l, ok := pf.componentLeaves(e, field, index, depth+1)
+			if !ok {
+				return nil, false
+			}
+			out = append(out, l...)
+		}
+		return out, true
+	case *ssa.Parameter:
+		sites, ok := staticCallSites(pf.p, x.Parent())
+		if !ok || len(sites) == 0 {
+			return nil, false
+		}
+		idx := paramIndex(x)
+		var out []leafVal
+		for _, ci := range sites {
+			if idx < 0 || idx >= len(ci.Common().Args) {
+				return nil, false
+			}
+			l, ok := pf.componentLeaves(ci.Common().Args[idx], field, index, depth+1)
+			if !ok {
+				return nil, false
+			}
+			out = append(out, l...)
+		}
+		return out, true
+	case *ssa.Call:
+		callee := x.Call.StaticCallee()
+		if callee == nil || !pf.p.OwnedFunc(callee) || callee.Blocks == nil || callee.Signature.Results().Len() != 1 {
+			return nil, false
+		}
+		var out []leafVal
+		for _, b := range callee.Blocks {
+			if r, isRet := b.Instrs[len(b.Instrs)-1].(*ssa.Return); isRet && b != callee.Recover {
+				l, ok := pf.componentLeaves(r.Results[0], field, index, depth+1)
+				if !ok {
+					return nil, false
+				}
+				out = append(out, l...)
+			}
+		}
+		return out, len(out) > 0
+	case *ssa.Extract, *ssa.Lookup, *ssa.Index:
+		// an entry of a container with an element invariant (tracker[key], its comma-ok form, the value of a range)
+		if field == nil && index >= 0 {
+			for f := range pf.elemInv {
+				if derivesFromField(s, f, map[ssa.Value]bool{}) {
+					return []leafVal{{elemOf: f, idx: index}}, true
+				}
+			}
+		}
+		return nil, false
+	case *ssa.UnOp:
+		if x.Op != token.MUL {
+			return nil, false
+		}
+		a, ok := x.X.(*ssa.Alloc)
+		if !ok {
+			return nil, false
+		}
+		return pf.allocLeaves(a, field, index, depth+1)
+	}
+	return nil, false
+}
+
+// allocLeaves: the scalars component sel of the local variable a can hold: every value stored to that component directly and
+// the same component of every aggregate stored to the variable as a whole (flow-insensitive: any of them may be current).
+// The variable's address must be used for nothing but component addressing, loads and stores.
+func (pf *parserFacts) allocLeaves(a *ssa.Alloc, field *types.Var, index int64, depth int) ([]leafVal, bool) {
+	if depth > 8 {
+		return nil, false
+	}
+	var found []leafVal
+	for _, r := range *a.Referrers() {
+		switch y := r.(type) {
+		case *ssa.FieldAddr:
+			if field == nil || deref(y.X.Type()).Underlying().(*types.Struct).Field(y.Field) != field {
+				continue
+			}
+			for _, rr := range *y.Referrers() {
+				switch z := rr.(type) {
+				case *ssa.Store:
+					if z.Addr == ssa.Value(y) {
+						found = append(found, leafVal{v: z.Val, at: z.Block()})
+					}
+				case *ssa.UnOp:
+				default:
+					return nil, false // the component's address escapes
+				}
+			}
+		case *ssa.IndexAddr:
+			k, isK := y.Index.(*ssa.Const)
+			if field != nil {
+				continue
+			}
+			if !isK {
+				for _, rr := range *y.Referrers() {
+					if _, isStore := rr.(*ssa.Store); isStore {
+						return nil, false // a store through a computed index
+					}
+				}
+				continue
+			}
+			if k.Int64() != index {
+				continue
+			}
+			for _, rr := range *y.Referrers() {
+				switch z := rr.(type) {
+				case *ssa.Store:
+					if z.Addr == ssa.Value(y) {
+						found = append(found, leafVal{v: z.Val, at: z.Block()})
+					}
+				case *ssa.UnOp:
+				default:
+					return nil, false
+				}
+			}
+		case *ssa.Store:
+			if y.Addr != ssa.Value(a) {
+				return nil, false // the variable's address is stored somewhere
+			}
+			l, ok := pf.componentLeaves(y.Val, field, index, depth+1)
+			if !ok {
+				return nil, false
+			}
+			found = append(found, l...)
+		case *ssa.UnOp, *ssa.DebugRef:
+		default:
+			return nil, false // passed to a call, captured, ...
+		}
+	}
+	if len(found) == 0 {
+		return nil, false
+	}
+	return found, true
+}
+
+// consumers: the blocks in which the local literal lit is read as a whole (stored into the configuration, returned).
+func consumers(lit *ssa.Alloc) []*ssa.BasicBlock {
+	var out []*ssa.BasicBlock
+	for _, r := range *lit.Referrers() {
+		if ld, ok := r.(*ssa.UnOp); ok && ld.Op == token.MUL && ld.X == ssa.Value(lit) {
+			out = append(out, ld.Block())
+		}
+	}
+	return out
+}
+
+// reachesAvoiding: is some block of targets reachable from `from` without using the CFG edge cutFrom -> cutTo?
+func reachesAvoiding(from *ssa.BasicBlock, targets []*ssa.BasicBlock, cutFrom, cutTo *ssa.BasicBlock) bool {
+	want := map[*ssa.BasicBlock]bool{}
+	for _, t := range targets {
+		want[t] = true
+	}
+	seen := map[*ssa.BasicBlock]bool{}
+	var rec func(b *ssa.BasicBlock) bool
+	rec = func(b *ssa.BasicBlock) bool {
+		if want[b] {
+			return true
+		}
+		if seen[b] {
+			return false
+		}
+		seen[b] = true
+		for _, s := range b.Succs {
+			if b == cutFrom && s == cutTo {
+				continue
+			}
+			if rec(s) {
+				return true
+			}
+		}
+		return false
+	}
+	return rec(from)
 }
